@@ -101,6 +101,18 @@ def cross_shape_failure(desc, h, k, ups, seed):
     return None
 
 
+def requery_failure(desc, order):
+    """one pattern object queried for the shapes in `order`: every answer must be what a fresh object gives"""
+    pattern = cl.pattern_from_desc(desc)
+    for s in order:
+        fresh = cl.pattern_from_desc(desc)
+        m1, m2 = pattern.get_mask(s), fresh.get_mask(s)
+        t1, t2 = pattern.get_template(s), fresh.get_template(s)
+        if not (np.array_equal(m1, m2, equal_nan=True) and np.array_equal(t1, t2, equal_nan=True)):
+            return 'pattern object re-queried for shape %s after %s differs from a fresh object' % (s, order)
+    return None
+
+
 def mk_replay(desc, shape, nmax, calls, method, crop, bc, prefill, fail):
     return {'kind': 'history', 'call': 'process_frame_%s x %d' % (method.split('-')[0] + (' (strided output views)' if 'strided' in method else ''), len(calls)),
             'args': {'pattern': desc, 'shape': list(shape), 'nmax': nmax, 'method': method, 'crop': crop, 'buffer_count': bc, 'prefill': prefill,
@@ -112,6 +124,13 @@ def replay(body):
     if 'frame_ints' in body.get('args', {}):
         return cl.replay_case(body, 'C09')          # a failing input recorded by the model correspondence (cl.model_check)
     a = body['args']
+    if 'shapes' in a and 'at' in a:
+        fail = requery_failure(a['pattern'], [tuple(x) for x in a['shapes']])
+        print(json.dumps({'failure_now': fail}, indent=1))
+        if fail:
+            print('VIOLATION property=C09 replay=(given)')
+            return 1
+        return 0
     if 'cross_shape' in a:
         x = a['cross_shape']
         fail = cross_shape_failure(a['pattern'], x['h'], x['k'], x['upsample'], x['seed'])
@@ -207,15 +226,11 @@ def run(ctx):
         shapes = [(int(rng.integers(2, 30)), int(rng.integers(2, 30))) for _ in range(3)]
         shapes += [(shapes[0][0], shapes[0][1] ^ 1), (shapes[1][0], shapes[1][1] ^ 1)]   # same rfft2 shape, different width
         order = shapes + shapes[::-1] + [shapes[i] for i in rng.permutation(len(shapes))]
-        for s in order:
-            fresh = cl.pattern_from_desc(desc)
-            m1, m2 = pattern.get_mask(s), fresh.get_mask(s)
-            t1, t2 = pattern.get_template(s), fresh.get_template(s)
-            nobj += 1
-            if not (np.array_equal(m1, m2, equal_nan=True) and np.array_equal(t1, t2, equal_nan=True)):
-                ctx.violation('input', 'pattern object re-queried for shape %s after %s differs from a fresh object' % (s, order),
-                              {'kind': 'history', 'call': 'get_mask/get_template', 'args': {'pattern': desc, 'shapes': order, 'at': list(s)}})
-                break
+        nobj += len(order)
+        fail = requery_failure(desc, order)
+        if fail:
+            ctx.violation('input', fail, {'kind': 'history', 'call': 'get_mask/get_template', 'args': {'pattern': desc, 'shapes': [list(x) for x in order], 'at': []}, 'failure': fail})
+            break
     matcher = grm.Matcher(tolerance=1.0, min_weight=0.1, min_match=3)
     for k in range(ctx.n(20, 100)):
         n = int(rng.integers(4, 12))
